@@ -307,6 +307,21 @@ def run(A, R: Report, thorough: bool):
     typ = [r for r in raises if any('isinstance' in t_ and 'dtype' in t_ and not pol for t_, pol in facts_text(A, fsv, cfg, r.id))]
     R.check(bool(req), 'R09.5', 'Parameter.set_value: required', key_of('required-raise'), 'raises when absent and required', 'a required parameter that is missing from the config no longer raises', where=where(fsv))
     R.check(bool(typ), 'R09.5', 'Parameter.set_value: dtype', key_of('dtype-raise'), 'raises on wrong type', 'a value of the wrong type no longer raises', where=where(fsv))
+    # the str-for-Path exception is a conjunction: a str for another dtype, and a non-str for Path, still raise
+    allnodes9 = list(cfg.nodes)
+
+    def edge_ids(pred, label):
+        return [n.id for n in cfg.nodes.values() if n.kind == 'edge' and n.label == label and pred(src_resolved(A, getattr(n.owner, '_info', None) or fsv, n.ast))]
+
+    is_path = lambda t_: t_.replace(' ', '') in ('self.dtypeisPath', 'self.dtype==Path', 'Pathisself.dtype')
+    is_str = lambda t_: t_.startswith('isinstance(') and t_.replace(' ', '').endswith(',str)')
+    if typ and (edge_ids(is_path, 'T') or edge_ids(is_str, 'T')):
+        tr = [r.id for r in typ]
+        str_other = cfg.find_path([cfg.entry.id], tr, avoid=edge_ids(is_path, 'T') + edge_ids(is_str, 'F'), no_exc_from=allnodes9)
+        path_nonstr = cfg.find_path([cfg.entry.id], tr, avoid=edge_ids(is_path, 'F') + edge_ids(is_str, 'T'), no_exc_from=allnodes9)
+        R.check(str_other is not None and path_nonstr is not None, 'R09.5', 'Parameter.set_value: str-for-Path exception', key_of('path-str', str_other is not None, path_nonstr is not None),
+                'only a str given for a Path parameter is exempt from the type check',
+                'the exemption "a str is accepted for dtype Path" is no longer a conjunction: ' + ('a str is accepted for every dtype' if str_other is None else 'any value is accepted for dtype Path'), where=where(fsv))
     stores = [v for c, v in A.typer.attr_store_exprs.get((par.qualname, '_value'), []) if c.func is fsv]
     R.require(stores, 'anchor: store to _value in Parameter.set_value not found')
     for v in stores:
@@ -404,6 +419,14 @@ def run(A, R: Report, thorough: bool):
             val_ok = bool(t) and all(x[0] == 'cat' and len(x[1]) == 2 and ('attr', ('self',), '_filepath') in dag_nodes(x[1][0]) and x[1][1][0] == 'var' for x in t)
             ok8 = ok8 and guard and val_ok and same_list
     R.check(ok8, 'R09.8', 'Config._update_uses', key_of('part-rewrite', [src(s_[0]) for s_ in stores8]), '`#part` -> `<own file>#part`', '`#part` references are not rewritten to the own file (or other entries are rewritten too)', where=where(fuu))
+    finit9 = cfgc.lookup('__init__')
+    cfgi = A.cfg(finit9)
+    part_from_path = [n for n in inl(A, finit9) if isinstance(n, ast.Assign) and any(src(x) == 'self._part' for t_ in n.targets for x in ([t_] + (list(t_.elts) if isinstance(t_, (ast.Tuple, ast.List)) else [])))
+                      and "'#'" in src(n.value)]
+    for n in part_from_path:
+        guarded = all(any(("'#' in " in t_ and pol) or ("'#' not in " in t_ and not pol) for t_, pol in facts_text(A, finit9, cfgi, cn.id)) for cn in cfg_nodes_for(cfgi, n))
+        R.check(guarded, 'R09.8', f'Config.__init__: `{src(n)[:50]}`', key_of('part-from-path', guarded), 'the part is taken from the path only when the path contains `#`',
+                f'`{src(n)[:70]}` runs for every file path: a part given explicitly (part=...) is overwritten when the path has no `#`, so the config silently falls back to the main part', where=where(finit9, n))
     fgp = cfgc.lookup('_get_part')
     cfgp = A.cfg(fgp)
     dstores = [n for n in inl(A, fgp) if isinstance(n, ast.Assign) and any(src(x) == 'self._data' for t_ in n.targets for x in ([t_] + (list(t_.elts) if isinstance(t_, (ast.Tuple, ast.List)) else [])))]
